@@ -64,6 +64,10 @@ def driver(pmap, tier, seed):
                 if '/' in obs and d != r['norm'][obs.split('/')[0]]:
                     acc.fail('derived values after %s differ between the object and its %s' % tuple(obs.split('/')), input=key, cell=list(cell), observable=obs)
                     break
+            for obs, d in r.get('reversed_order', {}).items():
+                if d != base.get(obs):
+                    acc.fail('%s depends on the order in which derived values are first read' % obs, input=key, cell=list(cell), observable=obs)
+                    break
             if r['first'].get('atoms_order') != r['first'].get('atoms_order_again'):
                 acc.fail('atoms_order changes after str()', input=key, cell=list(cell))
         acc.outcomes[base.get('str')] += 1
@@ -88,6 +92,7 @@ def replay(rec):
     same = a.get(key) == b.get(key)
     r = b.get(key, {})
     coherent = all(r.get('first') == r.get(m) for m in MODES) if 'first' in r else True
+    coherent = coherent and all(r['first'].get(o) == d for o, d in r.get('reversed_order', {}).items())
     nm = r.get('norm', {})
     coherent = coherent and all(nm[o] == nm[o.split('/')[0]] for o in nm if '/' in o)
     return [] if same and coherent else [{'key': rec['key']}]
